@@ -56,6 +56,7 @@ class RunCtx:
         self.net.install()
         self.world = World(self.env, self.net)
         RunCtx.current = self
+        self.in_pack = 0
         self.jail = os.path.join(self.root, "jail")
         self.probes = {}
         self.signature = hashlib.sha256()
@@ -84,7 +85,14 @@ class RunCtx:
         orig_pack = mbox.Mailbox._pack_if_necessary
 
         async def pack(self_):
-            r = await orig_pack(self_)
+            will = not (self_.num_msgs < self_.folder_size_pack_limit or not self_.msg_keys or self_.num_msgs / self_.msg_keys[-1] > self_.folder_ratio_pack_limit)
+            if will:
+                RunCtx.current.in_pack += 1
+            try:
+                r = await orig_pack(self_)
+            finally:
+                if will:
+                    RunCtx.current.in_pack -= 1
             if r:
                 RunCtx.current.probe("pack_ran")
             return r
